@@ -100,8 +100,10 @@ impl Acc {
     }
 }
 
+/// Token kinds of a text (for violation keys). The lexer is part of the subject: a panic in it
+/// must not take the check down, the key then just says so.
 fn lex_kinds(text: &str) -> Vec<SyntaxKind> {
-    syntax::lexer::GleamLexer::new(text).filter(|t| !t.kind.is_trivia()).map(|t| t.kind).collect()
+    crate::core::catch(|| syntax::lexer::GleamLexer::new(text).filter(|t| !t.kind.is_trivia()).map(|t| t.kind).collect::<Vec<_>>()).unwrap_or_else(|_| vec![SyntaxKind::ERROR])
 }
 
 fn record(which: Which, layer: &str, text: &str, o: &Outcome, acc: &mut Acc, distinct: &DistinctCounter) {
